@@ -13,7 +13,7 @@ import (
 
 func init() {
 	PropertyText["C14"] = [2]string{
-		"Decides the shape of the pause protocol: every stage worker's main select has a PauseCh arm on which it offers ResumeCh before taking any further input, the offer is abandonable on the stage context, and Subscribe is paired with a deferred Unsubscribe of the same value (R-PAUSE-WORKER); Pause only sends non-blockingly and only after winning the CAS (R-PAUSE-NONBLOCK); Resume's blocking receives are guarded by evidence that a pause is in force and Resume calls are serialized (R-RESUME-GUARD); Unsubscribe removes before closing and Resume tolerates closed channels (R-UNSUB-SAFE); the watchers call Pause/Resume in matched pairs driven by the same check (R-WATCHER-PAIRS).",
+		"Decides the shape of the pause protocol: every stage worker's main select has a PauseCh arm on which it offers ResumeCh before taking any further input, the offer is abandonable on the stage context, and Subscribe is paired with a deferred Unsubscribe of the same value (R-PAUSE-WORKER); Pause only sends non-blockingly and only after winning the CAS (R-PAUSE-NONBLOCK); Resume's blocking receives are guarded by evidence that a pause is in force and Resume calls are serialized (R-RESUME-GUARD); Unsubscribe removes before closing and Resume tolerates closed channels (R-UNSUB-SAFE); the watchers call Pause/Resume in matched pairs driven by the same check (R-WATCHER-PAIRS). Resume observes the pause under its mutex (guard-under-lock); nothing a subscriber runs loops on the pause state (R-PAUSE-NO-POLL).",
 		"Not decided: deadlock freedom of the protocol over all call orders as a whole (a model-checking question); that already-running fetch goroutines finish their current fetch after the pause is acknowledged.",
 	}
 	register(&core.Rule{ID: "R-PAUSE-WORKER", Props: []string{"C14"}, Doc: "per stage worker: main select has an arm on the subscriber's PauseCh; on it the worker offers ResumeCh (abandonable on the stage ctx) before looping; pause.Subscribe() is followed by defer pause.Unsubscribe(same value) before any return", Run: rulePauseWorker})
